@@ -4,12 +4,14 @@ import argparse, concurrent.futures, fcntl, glob, hashlib, json, os, re, shutil,
 VERIF = os.path.dirname(os.path.dirname(os.path.abspath(__file__)))
 REPO = os.environ.get("VERIF_REPO", "/repo")
 COQ = os.path.join(VERIF, "coq")
-BUILD = os.path.join(VERIF, "build")
-# evidence and replays of runs against another tree (VERIF_REPO: seeded changes held in a scratch
-# worktree) are kept apart from those of /repo
+# runs against another tree (VERIF_REPO: seeded changes held in a scratch worktree) have a build
+# directory of their own (binaries, generated packages, caches, evidence, replays), so that they can
+# run beside checks of /repo without either using the other's generator or driver
 _ALT = "VERIF_REPO" in os.environ and os.path.realpath(REPO) != "/repo"
-EVDIR = os.path.join(BUILD, "alt", "evidence") if _ALT else os.path.join(VERIF, "evidence")
-RPDIR = os.path.join(BUILD, "alt", "replays") if _ALT else os.path.join(VERIF, "replays")
+MAINBUILD = os.path.join(VERIF, "build")
+BUILD = os.path.join(MAINBUILD, "alt", hashlib.sha256(os.path.realpath(REPO).encode()).hexdigest()[:10]) if _ALT else MAINBUILD
+EVDIR = os.path.join(BUILD, "evidence") if _ALT else os.path.join(VERIF, "evidence")
+RPDIR = os.path.join(BUILD, "replays") if _ALT else os.path.join(VERIF, "replays")
 GOENV = dict(os.environ, GOFLAGS="-mod=mod", GOPROXY="off", GOSUMDB="off", GOTOOLCHAIN="local",
              CGO_ENABLED="0")
 FORBIDDEN = re.compile(r"\b(Admitted|admit|Axiom|Axioms|Parameter|Parameters|Conjecture|Conjectures|"
@@ -26,7 +28,8 @@ def log(*a):
 class Lock:
     def __init__(self, name):
         os.makedirs(BUILD, exist_ok=True)
-        self.path = os.path.join(BUILD, name + ".lock")
+        # the Coq theories are shared by every run: one lock for them
+        self.path = os.path.join(MAINBUILD if name == "coq" else BUILD, name + ".lock")
 
     def __enter__(self):
         self.f = open(self.path, "w")
